@@ -87,6 +87,7 @@ type sample struct {
 	Kind       string `json:"kind"`
 	Terminator string `json:"terminator"`
 	S2S        bool   `json:"s2s"`
+	Layered    bool   `json:"layered_transport,omitempty"`
 	Closers    int    `json:"closers"`
 	Senders    int    `json:"senders"`
 	Ops        int    `json:"ops_per_sender"`
@@ -387,6 +388,11 @@ func (w *world) finish(term string, smp *sample) {
 	if done, quiet := stall.AwaitQuiet(fin, w.progress, 10*time.Second, 100*time.Second); !done {
 		if ps := stall.Check(nil, 0); quiet && len(ps) > 0 {
 			c.Violate("close:serve-stall:"+term+":"+ps[0].Func, "Serve did not return after terminator %q and the system is quiescent; parked:\n%s", term, ps[0].Stack)
+		} else if quiet && term == "deadline" && w.p.Lib.BlockedNoDeadline() > 0 {
+			// SetCloseDeadline returned nil, the peer is silent by construction, and
+			// the session's read is parked in the transport with no read deadline
+			// armed: nothing can ever wake it (a logical verdict, no timing)
+			c.Violate("close:serve:deadline-not-armed", "a close deadline was set and the peer stays silent, but Serve is blocked in a transport read with no read deadline armed: it can never return")
 		} else {
 			c.Inconclusive("Serve did not return within the watchdog after %q (quiescent=%v)", term, quiet)
 		}
@@ -621,14 +627,14 @@ func tail(b []byte, n int) []byte {
 func runStress(c *core.Case) {
 	r := c.Rand
 	term := terminators[r.Intn(len(terminators))]
-	o := sess.Opts{S2S: r.Intn(3) == 0}
+	o := sess.Opts{S2S: r.Intn(3) == 0, Layered: r.Intn(3) == 0}
 	nClosers := r.Intn(4)
 	if term == "deadline" && nClosers == 0 {
 		nClosers = 1
 	}
 	nSenders := 1 + r.Intn(4)
 	nOps := 6 + r.Intn(14)
-	smp := &sample{Kind: "stress", Terminator: term, S2S: o.S2S, Closers: nClosers, Senders: nSenders, Ops: nOps}
+	smp := &sample{Kind: "stress", Terminator: term, S2S: o.S2S, Layered: o.Layered, Closers: nClosers, Senders: nSenders, Ops: nOps}
 	c.Sample(smp)
 	w := newWorld(c, o)
 	if w == nil {
@@ -734,6 +740,12 @@ func runStress(c *core.Case) {
 		w.terminate(term)
 	}
 	c.Count("stress_histories", 1)
+	if o.Layered {
+		c.Count("layered_transport_histories", 1)
+		if term == "deadline" {
+			c.Count("layered_transport_close_deadline", 1)
+		}
+	}
 	w.finish(term, smp)
 }
 
@@ -1057,7 +1069,7 @@ func Prop() *core.Prop {
 		ID:    "C10",
 		Level: core.Exploration,
 		Race:  true,
-		Rule:  "the first 20 cases are the forced scenarios X1a/X1b/X2/X3/X4 (orderings at the close.enter / senderr.enter yield points) X5a/X5b (the transport fails, entirely or after 5 bytes, exactly on the write of the closing tag) and X6 (a transport with synchronous writes in both directions: Close blocked on the closing tag while the peer sends two more stanzas before reading) and X7 (a sender's context ends during its write and the write-deadline helper is parked at wdl.armed while the handler answers a peer IQ) and X8 (SetCloseDeadline replaces the input context while the serve loop is parked at serve.loop holding the old one), each c2s and s2s; the rest are stress histories on one served session: 0-3 closers (1-3 Close calls each, sometimes SetCloseDeadline), 1-4 senders drawing from 13 transmit entry points, peer-injected IQs answered by the handler, and one terminator from {peer close tag, peer stream error, handler error, silence + 50 ms close deadline} issued early or after the actors; afterwards every entry point is called once more on the closed session. Oracles: closing-tag count and bytes after it on the peer side; porcupine check of the recorded history against a two-state closable-log model; marker-on-wire side conditions; State()/TokenReader after Serve; Serve's return per terminator. Distinct = (kind, terminator, closers, some transmit overlapped a Close?, some transmit began after a Close returned?, tags).",
+		Rule:  "the first 20 cases are the forced scenarios X1a/X1b/X2/X3/X4 (orderings at the close.enter / senderr.enter yield points) X5a/X5b (the transport fails, entirely or after 5 bytes, exactly on the write of the closing tag) and X6 (a transport with synchronous writes in both directions: Close blocked on the closing tag while the peer sends two more stanzas before reading) and X7 (a sender's context ends during its write and the write-deadline helper is parked at wdl.armed while the handler answers a peer IQ) and X8 (SetCloseDeadline replaces the input context while the serve loop is parked at serve.loop holding the old one), each c2s and s2s; the rest are stress histories on one served session (a third of them on a layered transport: a plain io.ReadWriter around the connection installed during negotiation, deadlines proxied): 0-3 closers (1-3 Close calls each, sometimes SetCloseDeadline), 1-4 senders drawing from 13 transmit entry points, peer-injected IQs answered by the handler, and one terminator from {peer close tag, peer stream error, handler error, silence + 50 ms close deadline} issued early or after the actors; afterwards every entry point is called once more on the closed session. Oracles: closing-tag count and bytes after it on the peer side; porcupine check of the recorded history against a two-state closable-log model; marker-on-wire side conditions; State()/TokenReader after Serve; Serve's return per terminator. Distinct = (kind, terminator, closers, some transmit overlapped a Close?, some transmit began after a Close returned?, tags).",
 		Assumptions: []string{
 			"a transmit that overlaps a Close in time may land on either side of the closing tag",
 			"handler replies are buffered until the handler returns, so their on-wire side condition is not demanded; their error value is",
@@ -1071,7 +1083,7 @@ func Prop() *core.Prop {
 			return len(forced)*2 + 70
 		},
 		Run: run,
-		Require: []string{"forced_scenarios", "stress_histories", "close_under_write_fault", "close_returns_with_wire_snapshot", "synchronous_transport_closes", "cancelled_sender_deadline_scenarios", "close_deadline_during_loop_scenarios", "yield:close.enter", "yield:senderr.enter", "transmits_overlapping_a_close",
+		Require: []string{"forced_scenarios", "stress_histories", "close_under_write_fault", "close_returns_with_wire_snapshot", "synchronous_transport_closes", "cancelled_sender_deadline_scenarios", "close_deadline_during_loop_scenarios", "layered_transport_histories", "layered_transport_close_deadline", "yield:close.enter", "yield:senderr.enter", "transmits_overlapping_a_close",
 			"transmits_begun_after_a_close_returned", "late_transmits", "porcupine_checks",
 			"serve_returned:peer-close", "serve_returned:stream-error", "serve_returned:handler-error", "serve_returned:deadline"},
 		ReplayRepeats: 10,
